@@ -175,16 +175,38 @@ func coreHeader(envs []*Env) string {
 		}
 	}
 	b.WriteString("\n].\n")
-	// pow oracle table
+	// pow oracle table: a base grid (small integers, the numeric members of the environments and their negations,
+	// elements of their numeric slices) plus, for every serialised case whose source has `**`, the operand values of
+	// each `**` node whose operands do not depend on a closure element (evaluated on the case's environment)
 	vals := map[uint64]float64{}
 	addF := func(f float64) { vals[math.Float64bits(f)] = f }
-	for _, f := range []float64{1, 2, 3, 0.5, -1, 10} {
+	for _, f := range []float64{0.5, 1.5, 2.5, -0.5, 10} {
 		addF(f)
 	}
+	for i := -4; i <= 9; i++ {
+		addF(float64(i))
+	}
 	for _, e := range envs {
-		addF(float64(e.I))
-		addF(e.F64)
-		addF(float64(e.U8))
+		for _, f := range []float64{float64(e.I), e.F64, float64(e.U8), float64(e.I8), float64(e.F32), float64(e.St.X), float64(len(e.AI))} {
+			addF(f)
+			addF(-f)
+		}
+		for _, x := range e.AI {
+			addF(float64(x))
+		}
+		for _, x := range e.AF {
+			addF(x)
+		}
+	}
+	type pair struct{ x, y float64 }
+	extra := map[[2]uint64]pair{}
+	for _, ps := range powSites {
+		if ps.env < 0 || ps.env >= len(envs) {
+			continue
+		}
+		for _, q := range powOperands(ps.tree, envs[ps.env]) {
+			extra[[2]uint64{math.Float64bits(q[0]), math.Float64bits(q[1])}] = pair{q[0], q[1]}
+		}
 	}
 	keys := make([]uint64, 0, len(vals))
 	for k := range vals {
@@ -202,11 +224,95 @@ func coreHeader(envs []*Env) string {
 			fmt.Fprintf(&b, "  (%s, %s, %s)", coqFloat(vals[kx]), coqFloat(vals[ky]), coqFloat(math.Pow(vals[kx], vals[ky])))
 		}
 	}
+	ekeys := make([][2]uint64, 0, len(extra))
+	for k := range extra {
+		if _, a := vals[k[0]]; a {
+			if _, c := vals[k[1]]; c {
+				continue // already in the grid
+			}
+		}
+		ekeys = append(ekeys, k)
+	}
+	sort.Slice(ekeys, func(i, j int) bool {
+		return ekeys[i][0] < ekeys[j][0] || (ekeys[i][0] == ekeys[j][0] && ekeys[i][1] < ekeys[j][1])
+	})
+	for _, k := range ekeys {
+		q := extra[k]
+		if !first {
+			b.WriteString(";\n")
+		}
+		first = false
+		fmt.Fprintf(&b, "  (%s, %s, %s)", coqFloat(q.x), coqFloat(q.y), coqFloat(math.Pow(q.x, q.y)))
+	}
 	b.WriteString("\n].\nDefinition fe := u_fenv re_tbl pow_tbl.\n")
 	return b.String()
 }
 
+// `**` sites of the serialised cases: their operand values go into the math.Pow oracle table of the header
+type powSite struct {
+	env  int
+	tree *parser.Tree
+}
+
+var powSites []powSite
+
+// powOperands: (x, y) as float64 of every `**` node of the tree whose operands contain no closure element,
+// evaluated on env (failures and non-numeric operands are skipped: the model then fails before it asks the oracle)
+func powOperands(tree *parser.Tree, env *Env) [][2]float64 {
+	var out [][2]float64
+	saved := callLog
+	defer func() { callLog = saved }()
+	closed := func(n ast.Node) bool {
+		ok := true
+		ast.Walk(&n, visitFn(func(m *ast.Node) {
+			if _, p := (*m).(*ast.PointerNode); p {
+				ok = false
+			}
+		}))
+		return ok
+	}
+	val := func(n ast.Node) (f float64, ok bool) {
+		defer func() {
+			if recover() != nil {
+				ok = false
+			}
+		}()
+		p, err := compiler.Compile(&parser.Tree{Node: n, Source: tree.Source}, nil)
+		if err != nil {
+			return 0, false
+		}
+		out, err := vm.Run(p, env)
+		if err != nil {
+			return 0, false
+		}
+		rv := reflect.ValueOf(out)
+		switch rv.Kind() {
+		case reflect.Int, reflect.Int8, reflect.Int16, reflect.Int32, reflect.Int64:
+			return float64(rv.Int()), true
+		case reflect.Uint, reflect.Uint8, reflect.Uint16, reflect.Uint32, reflect.Uint64:
+			return float64(rv.Uint()), true
+		case reflect.Float32, reflect.Float64:
+			return rv.Float(), true
+		}
+		return 0, false
+	}
+	root := tree.Node
+	ast.Walk(&root, visitFn(func(m *ast.Node) {
+		if b, ok := (*m).(*ast.BinaryNode); ok && b.Operator == "**" && closed(b.Left) && closed(b.Right) {
+			x, ok1 := val(b.Left)
+			y, ok2 := val(b.Right)
+			if ok1 && ok2 {
+				out = append(out, [2]float64{x, y})
+			}
+		}
+	}))
+	return out
+}
+
 func coreCase(mapenv bool, cast string, limit int, envIdx int, tree *parser.Tree, prog *vm.Program, r coreRun) string {
+	if strings.Contains(tree.Source.Content(), "**") && len(powSites) < 20000 {
+		powSites = append(powSites, powSite{envIdx, tree})
+	}
 	note := strings.ReplaceAll(strings.ReplaceAll(tree.Source.Content(), "*)", "* )"), "(*", "( *")
 	note = strings.ReplaceAll(strings.ReplaceAll(note, "\n", " "), "\"", "'")
 	return fmt.Sprintf("mkCase %s %s %d env%d %s %s %s (* %s *)", cqBool(mapenv), castCoq(cast), limit, envIdx,
